@@ -63,13 +63,14 @@ FloatPred(op, f, x) ==
 
 \* ldexp(x, k): k is a lane of the same-width signed integer type
 IntLaneVal(k) == IF k[Len(k)] >= 128 THEN -ToInt(BSub(BPow2(8 * Len(k)), k)) ELSE ToInt(k)     \* |k| < 2^31 guaranteed by the generator
+SignedLane(v, n) == IF v >= 0 THEN Fix(FromInt(v), n) ELSE Fix(BSub(BPow2(8 * n), FromInt(-v)), n)          \* two's complement of v in n bytes
 LdexpRel(f, x, k, r) == ResOK(f, Ldexp(f, x, IntLaneVal(k)), r)
 \* frexp(x) -> (mantissa m, exponent e lane): exact for finite non-zero x; +-0 -> (+-0, 0); inf/NaN: mantissa = x (any NaN), exponent unspecified
 FrexpRel(f, x, m, e) ==
   IF IsNaN(f, x) THEN IsNaN(f, m)
   ELSE IF IsInf(f, x) THEN m = x
   ELSE IF IsZeroF(f, x) THEN m = x /\ IsZero(e)
-  ELSE m = FrexpMant(f, x) /\ IntLaneVal(e) = FrexpExp(f, x)
+  ELSE m = FrexpMant(f, x) /\ e = SignedLane(FrexpExp(f, x), Len(e))          \* compared as digit sequences: an arbitrary observed lane must not overflow TLC
 
 (***************************************************************************)
 (* Known deviations of the code from C02 (known_findings.json):               *)
